@@ -64,6 +64,14 @@ def siblings(props):
             ('bind', 'x', None, ('and', ('exists', 'xx', None, ('jump', 'xx', ('EX', X))), ('forall', 'xx', None, ('or', ('EF', XX), X)))),
             ('imp', ('bind', 'x', None, ('AX', X)), ('bind', 'x', None, ('AX', X)))]
 
+def operand_pairs(ops=('EU', 'AW'), props=('v0', 'v1')):
+    """binary temporal operators over every ordered pair of distinct conjunctions of literals: operands that partition the
+    state space along a variable, steady states satisfying one operand only, branching states that see both"""
+    P0, P1 = ('prop', props[0]), ('prop', props[1])
+    N0, N1 = ('not', P0), ('not', P1)
+    A = [P0, N0, P1, N1, ('and', P0, P1), ('and', N0, P1), ('and', P0, N1), ('and', N0, N1)]
+    return [(b, l, r) for b in ops for l in A for r in A if l != r]
+
 def subformulas(phi):
     yield phi
     op = phi[0]
